@@ -137,6 +137,20 @@ impl WaitGraph {
 
 // OrderSuspension is now VmOrderSuspension in bytecode_vm.rs
 
+/// Default for [`Interpreter::set_native_stack_budget`]: small enough for the 2 MiB stack of a
+/// spawned Rust thread (1 MiB for wasm32) even with the large frames of an unoptimised build.
+#[cfg(not(target_arch = "wasm32"))]
+pub const DEFAULT_NATIVE_STACK_BUDGET: usize = 1024 * 1024;
+#[cfg(target_arch = "wasm32")]
+pub const DEFAULT_NATIVE_STACK_BUDGET: usize = 384 * 1024;
+
+/// Approximate position of the native stack pointer (the address of a local variable).
+#[inline(always)]
+pub(crate) fn native_stack_position() -> usize {
+    let marker = 0u8;
+    core::hint::black_box(&marker) as *const u8 as usize
+}
+
 /// The interpreter state
 pub struct Interpreter {
     // ═══════════════════════════════════════════════════════════════════════════
@@ -261,6 +275,18 @@ pub struct Interpreter {
 
     /// Console counters for console.count() / console.countReset()
     console_counters: FxHashMap<String, u64>,
+
+    /// Number of native activations that are currently running script code on the native
+    /// stack (callbacks of built-ins, accessors, coercion hooks, proxy traps, generator bodies)
+    native_depth: u32,
+
+    /// Native stack position when the outermost of those activations (or the current `step()`)
+    /// was entered
+    native_stack_base: usize,
+
+    /// Native stack (in bytes, measured from `native_stack_base`) that nested native activations
+    /// may use before a `RangeError` is thrown; see [`Interpreter::set_native_stack_budget`]
+    native_stack_budget: usize,
 
     /// Current FFI callback ID (set before calling native functions with ffi_id > 0)
     /// Used by the FFI layer to look up C callbacks
@@ -475,6 +501,9 @@ impl Interpreter {
             well_known_symbols,
             console_timers: FxHashMap::default(),
             console_counters: FxHashMap::default(),
+            native_depth: 0,
+            native_stack_base: 0,
+            native_stack_budget: DEFAULT_NATIVE_STACK_BUDGET,
             current_ffi_id: 0,
             #[cfg(feature = "c-api")]
             ffi_context: core::ptr::null_mut(),
@@ -729,6 +758,46 @@ impl Interpreter {
         }
 
         interp
+    }
+
+    // ═══════════════════════════════════════════════════════════════════════════
+    // Native Stack Limit
+    // ═══════════════════════════════════════════════════════════════════════════
+
+    /// Set how many bytes of native stack script code entered from native code (callbacks of
+    /// built-ins such as `map`/`sort`/`replace`, getters and setters, `toString`/`valueOf`, proxy
+    /// traps, generator bodies, `call`/`apply`) and recursive built-ins (`JSON.stringify`, `flat`,
+    /// `structuredClone`) may use, measured from the point where the host entered the
+    /// interpreter. Beyond it a catchable `RangeError: Maximum call stack size exceeded` is thrown
+    /// instead of overflowing the native stack. Hosts running on small stacks should lower it.
+    pub fn set_native_stack_budget(&mut self, bytes: usize) {
+        self.native_stack_budget = bytes;
+    }
+
+    /// Err(RangeError) when the native stack used since the host entered the interpreter exceeds
+    /// the budget.
+    pub(crate) fn check_native_stack(&self) -> Result<(), JsError> {
+        if self.native_stack_base.abs_diff(native_stack_position()) > self.native_stack_budget {
+            return Err(JsError::range_error("Maximum call stack size exceeded"));
+        }
+        Ok(())
+    }
+
+    /// Enter a native activation that runs script code on the native stack.
+    #[inline]
+    fn enter_native_activation(&mut self) -> Result<(), JsError> {
+        if self.native_depth == 0 {
+            self.native_stack_base = native_stack_position();
+        } else {
+            self.check_native_stack()?;
+        }
+        self.native_depth += 1;
+        Ok(())
+    }
+
+    #[inline]
+    fn leave_native_activation(&mut self) {
+        self.native_depth = self.native_depth.saturating_sub(1);
     }
 
     // ═══════════════════════════════════════════════════════════════════════════
@@ -1213,6 +1282,11 @@ impl Interpreter {
     #[inline]
     fn step_inner(&mut self) -> Result<StepResult, JsError> {
         use bytecode_vm::{BytecodeVM, VmStepResult};
+
+        // Native stack use is measured from where the host entered the interpreter
+        if self.native_depth == 0 {
+            self.native_stack_base = native_stack_position();
+        }
 
         // If there's no active VM, try to set one up from various sources
         if self.active_vm.is_none() {
@@ -3005,9 +3079,20 @@ impl Interpreter {
         &mut self,
         gen_state: &Rc<RefCell<BytecodeGeneratorState>>,
     ) -> Result<Guarded, JsError> {
-        use bytecode_vm::{BytecodeVM, VmResult};
         #[cfg(feature = "verif-hooks")]
         let _verif_reentry = crate::verif_hooks::ReentryGuard::enter();
+        // The generator body runs on the native stack: stop with a RangeError before it is exhausted
+        self.enter_native_activation()?;
+        let result = self.resume_bytecode_generator_on_native_stack(gen_state);
+        self.leave_native_activation();
+        result
+    }
+
+    fn resume_bytecode_generator_on_native_stack(
+        &mut self,
+        gen_state: &Rc<RefCell<BytecodeGeneratorState>>,
+    ) -> Result<Guarded, JsError> {
+        use bytecode_vm::{BytecodeVM, VmResult};
 
         // Check if generator is already completed
         {
@@ -4063,6 +4148,20 @@ impl Interpreter {
     ) -> Result<Guarded, JsError> {
         #[cfg(feature = "verif-hooks")]
         let _verif_reentry = crate::verif_hooks::ReentryGuard::enter();
+        // The callee runs on the native stack: stop with a RangeError before it is exhausted
+        self.enter_native_activation()?;
+        let result = self.call_function_on_native_stack(callee, this_value, args, new_target);
+        self.leave_native_activation();
+        result
+    }
+
+    fn call_function_on_native_stack(
+        &mut self,
+        callee: JsValue,
+        this_value: JsValue,
+        args: &[JsValue],
+        new_target: JsValue,
+    ) -> Result<Guarded, JsError> {
         let JsValue::Object(func_obj) = callee else {
             return Err(JsError::type_error("Not a function"));
         };
